@@ -9,7 +9,7 @@
     order ([perm_oracle sh]). *)
 From Coq Require Import List NArith ZArith Bool Arith Permutation.
 From Verif Require Import Dag.Model Dag.Facts Dag.KahnProofs Dag.PushProofs Dag.LayoutProofs Dag.Summary
-     Gen.DagsSrc Dag.DagGen.
+     Gen.DagsSrc Dag.DagGen Dag.CircleLegacy.
 Import ListNotations.
 
 (** The checker accepts exactly the graphs all of whose edge targets are
@@ -193,7 +193,7 @@ Qed.
 
 Example ex_dag_layout :
   match new_map sh_id ex_dag with
-  | MOk m => layout_map gen_params m =
+  | MOk m => layout_map deployed_params m =
              VwOk (mkV [(0, (0%nat, 0%Z)); (1, (1%nat, 0%Z)); (2, (1%nat, 2%Z)); (3, (2%nat, 1%Z))] 3 3)
              /\ map (m_crit_outs m) [0; 1; 2; 3] = [[1; 2]; [3]; [3]; []]
              /\ sget (m_ai m) 3 = [0; 1; 2]
@@ -205,7 +205,7 @@ Proof. vm_compute. repeat split. Qed.
 Example ex_push_moves :
   match new_map sh_id ex_push with
   | MOk m => lget (m_lay0 m) 3 = 0%nat /\
-             exists L, push_tight gen_params m = POk L /\ lget L 3 = 1%nat
+             exists L, push_tight deployed_params m = POk L /\ lget L 3 = 1%nat
   | MErr _ => False
   end.
 Proof. vm_compute. split; [reflexivity|]. eexists. split; reflexivity. Qed.
@@ -232,3 +232,27 @@ Qed.
 Example ex_dang_reverse :
   rev_graph sh_id (rev_graph sh_id ex_dang) = [(0, [1; 7]); (1, []); (7, [])].
 Proof. vm_compute. reflexivity. Qed.
+
+(** the defect repaired by 9ad6097, exhibited on the legacy model: within the
+    budget of n + n^2 dequeues that C19_check_total proves sufficient for the
+    repaired search on every graph, the legacy search does not finish on a
+    20-node graph *)
+Example legacy_search_refuted :
+  min_circle_legacy (blow 9) (circle_fuel (blow 9)) = SFuel /\
+  min_circle sh_id (blow 9) = SFound [9; 10; 11; 12; 13; 14; 15; 16; 17; 18; 19].
+Proof. split; [exact blow9_legacy_refuted | exact blow9_fixed]. Qed.
+
+(** parameters that violate [params_ok] (the node's own slot is not reserved)
+    really break the layout: two nodes land on one coordinate *)
+Example bad_params_collide :
+  let P := mkP (p_by_layer deployed_params) (p_by_ncrit deployed_params) [(-1)%Z; 1%Z]
+               (p_snap deployed_params) in
+  params_ok P = false /\
+  match new_map sh_id [(0, []); (1, [])] with
+  | MOk m => match layout_map P m with
+             | VwOk v => (vx v 0, vy v 0) = (vx v 1, vy v 1)
+             | _ => False
+             end
+  | MErr _ => False
+  end.
+Proof. vm_compute. split; reflexivity. Qed.
